@@ -10,9 +10,16 @@
     none of these steps produces padding;
   * `C14_only_packets`: composed and unconditional — without machines the returned trace holds
     only plain packet events (the "nothing else, no padding" half of `C14.holds`);
-  * `C14_identity_partial`: composed — only packets, ordered, exactly the input's number of
-    TunnelSent per side, every TunnelRecv matched one delay after a distinct TunnelSent; the
-    exact send times are what is missing (needs the heap-ordering lemma);
+  * `C14_identity` (and `_raw`, `_sim`): **the composed property** — for every time-ordered parsed
+    trace (times within `Duration::MAX`), every delay, every filter combination, `sim` and
+    `sim_advanced` without an explicit packets-per-second limit, a run without machines that ends
+    because all normal packets were processed returns a trace for which `C14.holds` is true: only
+    packets, TunnelSent at exactly the trace's `s` times, TunnelRecv at exactly its `r` times, the
+    server's view shifted by the delay, ordered by time.  It composes the heap-order lemma (the
+    served event is a minimum of all queued events, `Proofs/HeapOrder.lean`), the window-covering
+    lemma and the hop lemmas over the main loop (`Proofs/SimExact.lean`, `Proofs/SimIdentity.lean`);
+  * `C14_identity_partial`: the earlier composed statement in count form (kept: it does not need
+    the time-ordering and range hypotheses);
   * `C14_S1_parsed_limit_never_exceeded`: the window-covering lemma — the limit `parse_trace`
     derives (10 × the largest 100 ms count) is never exceeded by the 1 s window fed with the same
     time-ordered times, also when shifted by the delay (all constants come from the translator);
@@ -27,6 +34,7 @@ import MbVerif.Proofs.SimWindow
 import MbVerif.Proofs.SimOnlyPackets
 import MbVerif.Proofs.SimMatch
 import MbVerif.Proofs.SimRaw
+import MbVerif.Proofs.SimIdentity
 import MbVerif.Props.C15
 import MbVerif.Spec.C14
 
@@ -191,6 +199,51 @@ theorem C14_S1_parsed_limit_never_exceeded_raw (raw : List RawLine) (delay : Nat
       (∀ c ∈ feedCounts ⟨Gen.SIM_BOTTLENECK_WINDOW_NS, []⟩ ((rTimes (normalLines raw)).map (· + shift)), c ≤ lim) := by
   rw [parseTraceRaw_eq]
   exact C14_S1_parsed_limit_never_exceeded (normalLines raw) delay shift hs hr
+
+/-- **C14, composed: without machines the simulator reproduces the input trace.**  For every
+    parsed trace whose `s` times and `r` times are in time order and within `Duration::MAX`
+    (with two network delays to spare), every network delay, every argument record without an
+    explicit packets-per-second limit (any filters, any caps) and every oracle: if the run ended
+    because all normal packets were processed (the caps did not bind), then the returned trace,
+    on the observation time axis (offsets from the first base event), satisfies `C14.holds` —
+    the predicate the monitor evaluates on the implementation's output: only plain packet events;
+    from the client's perspective a TunnelSent at exactly every `s` time and a TunnelRecv at
+    exactly every `r` time; unless only client events are kept, the server's TunnelSent at the
+    `r` times minus the delay and its TunnelRecv at the `s` times plus the delay; ordered by
+    time.  So nothing is delayed by the trace-derived bottleneck, nothing is served late, and
+    nothing else happens. -/
+theorem C14_identity {σ : Type} (ρ : Oracle σ) (budget : Nat) (trace : List TraceLine) (delay : Nat) (a : Args) (orc : σ)
+    (hnet : a.network = ⟨delay, none⟩) (hs : Asc (sTimes trace)) (hr : Asc (rTimes trace))
+    (hB : ∀ l ∈ trace, ((l.1 : Nat) : Int) + 2 * (delay : Int) ≤ durMax)
+    (hstop : (simAdvanced ρ budget [] [] (parseTrace trace delay) a orc).stop = .noNormal) :
+    C14.holds trace delay a.onlyClientEvents
+      ((simAdvanced ρ budget [] [] (parseTrace trace delay) a orc).trace.map
+        (SimEvent.shift ((parseTrace trace delay).firstTime.getD 0))) = true := by
+  obtain ⟨lim, hlim, hfs, hfr⟩ := C14_S1_parsed_limit_never_exceeded trace delay (-(delay : Int)) hs hr
+  exact sim_identity ρ budget trace delay lim a orc hnet hlim hs hr hfs hfr hB hstop
+
+/-- the same for raw input traces with all direction tokens: the expected trace consists of the
+    normal lines (`s`, `sn`, `r`, `rn`); padding lines are not packets of the trace -/
+theorem C14_identity_raw {σ : Type} (ρ : Oracle σ) (budget : Nat) (raw : List RawLine) (delay : Nat) (a : Args) (orc : σ)
+    (hnet : a.network = ⟨delay, none⟩) (hs : Asc (sTimes (normalLines raw))) (hr : Asc (rTimes (normalLines raw)))
+    (hB : ∀ l ∈ normalLines raw, ((l.1 : Nat) : Int) + 2 * (delay : Int) ≤ durMax)
+    (hstop : (simAdvanced ρ budget [] [] (parseTraceRaw raw delay) a orc).stop = .noNormal) :
+    C14.holds (normalLines raw) delay a.onlyClientEvents
+      ((simAdvanced ρ budget [] [] (parseTraceRaw raw delay) a orc).trace.map
+        (SimEvent.shift ((parseTraceRaw raw delay).firstTime.getD 0))) = true := by
+  rw [parseTraceRaw_eq] at hstop ⊢
+  exact C14_identity ρ budget (normalLines raw) delay a orc hnet hs hr hB hstop
+
+/-- the same for `sim` (which fixes the network to the delay without a packets-per-second limit
+    and keeps both sides) -/
+theorem C14_identity_sim {σ : Type} (ρ : Oracle σ) (budget : Nat) (raw : List RawLine) (delay maxLen : Nat) (on : Bool) (orc : σ)
+    (hs : Asc (sTimes (normalLines raw))) (hr : Asc (rTimes (normalLines raw)))
+    (hB : ∀ l ∈ normalLines raw, ((l.1 : Nat) : Int) + 2 * (delay : Int) ≤ durMax)
+    (hstop : (sim ρ budget [] [] (parseTraceRaw raw delay) delay maxLen on orc).stop = .noNormal) :
+    C14.holds (normalLines raw) delay false
+      ((sim ρ budget [] [] (parseTraceRaw raw delay) delay maxLen on orc).trace.map
+        (SimEvent.shift ((parseTraceRaw raw delay).firstTime.getD 0))) = true :=
+  C14_identity_raw ρ budget raw delay _ orc rfl hs hr hB hstop
 
 /-- **S2, second hop** (exact when the bottleneck adds nothing): a normal TunnelSent at the clock
     queues one normal TunnelRecv for the other side exactly one configured delay later. -/
